@@ -107,7 +107,8 @@ pub fn encode_float(f: f64, out: &mut Vec<u8>) {
             head(0, f as u64, out);
             return;
         }
-        if f < 0.0 && f >= -18446744073709551616.0 {
+        // (dCBOR: integers are the range -2^63 ..= 2^64-1; a value below stays a float)
+        if f < 0.0 && f >= -9223372036854775808.0 {
             // -1 - n = f  => n = |f| - 1, computed exactly in integers
             let m = (-f) as u128;
             head(1, (m - 1) as u64, out);
@@ -185,12 +186,13 @@ pub enum Quirk {
     FloatWide,
     IntAsFloat,
     IntAsFloatSameLen,
+    IntAsShortFloat,
     TextNfd,
     NanPayload,
     NegZero,
 }
 
-pub const ALL_QUIRKS: [Quirk; 10] = [
+pub const ALL_QUIRKS: [Quirk; 11] = [
     Quirk::LongHead,
     Quirk::Indefinite,
     Quirk::MapReversed,
@@ -198,10 +200,25 @@ pub const ALL_QUIRKS: [Quirk; 10] = [
     Quirk::FloatWide,
     Quirk::IntAsFloat,
     Quirk::IntAsFloatSameLen,
+    Quirk::IntAsShortFloat,
     Quirk::TextNfd,
     Quirk::NanPayload,
     Quirk::NegZero,
 ];
+
+fn short_float(f: f64, out: &mut Vec<u8>) {
+    let h = half::f16::from_f64(f);
+    if h.to_f64() == f {
+        out.push(0xf9);
+        out.extend_from_slice(&h.to_bits().to_be_bytes());
+    } else if ((f as f32) as f64) == f {
+        out.push(0xfa);
+        out.extend_from_slice(&(f as f32).to_bits().to_be_bytes());
+    } else {
+        out.push(0xfb);
+        out.extend_from_slice(&f.to_bits().to_be_bytes());
+    }
+}
 
 pub fn encode_quirk(item: &Item, target: usize, quirk: Quirk) -> (Vec<u8>, bool) {
     let mut out = Vec::new();
@@ -249,6 +266,10 @@ fn enc_q(item: &Item, counter: &mut usize, target: usize, quirk: Quirk, applied:
                     return;
                 }
                 hd(0, *n, out, applied)
+            } else if here && quirk == Quirk::IntAsShortFloat && ((*n as f64) as u128) == *n as u128 {
+                // the integer written as the SHORTEST float that holds it exactly (half / single / double)
+                short_float(*n as f64, out);
+                *applied = true;
             } else if here && quirk == Quirk::IntAsFloat && *n < (1u64 << 53) {
                 let f = *n as f64;
                 out.push(0xfb);
@@ -258,7 +279,15 @@ fn enc_q(item: &Item, counter: &mut usize, target: usize, quirk: Quirk, applied:
                 hd(0, *n, out, applied)
             }
         }
-        Item::NInt(n) => hd(1, *n, out, applied),
+        Item::NInt(n) => {
+            let v = -1i128 - (*n as i128);
+            if here && quirk == Quirk::IntAsShortFloat && *n < (1u64 << 63) && ((v as f64) as i128) == v {
+                short_float(v as f64, out);
+                *applied = true;
+            } else {
+                hd(1, *n, out, applied)
+            }
+        }
         Item::Bytes(b) => {
             if here && quirk == Quirk::Indefinite {
                 out.push(0x5f);
@@ -581,7 +610,7 @@ impl<'a> Parser<'a> {
         encode_float(f, &mut canon);
         let canon_is_float = canon[0] >= 0xf9;
         if !canon_is_float {
-            return Err("float with integral value must be an integer".into());
+            return Err(if width == 4 && f.abs() >= 4294967296.0 { "single-precision float holding an integer beyond thirty-two bits must be an integer".into() } else { "float with integral value must be an integer".into() });
         }
         if canon.len() - 1 != width {
             return Err("float not in shortest form".into());
